@@ -1,0 +1,230 @@
+//go:build verif
+
+package interp
+
+import (
+	"reflect"
+	"runtime"
+	"strings"
+)
+
+// Verification hooks for the debugger property (C19). Compiled only with
+// -tags verif. Nothing here is called by the interpreter itself.
+
+// VerifC19Node describes one node of a compiled program: its place in the
+// syntax tree, its place in the control-flow graph and the identity of the
+// code of its generated closure.
+type VerifC19Node struct {
+	Index    int64   // node.index
+	Kind     string  // node.kind
+	Action   string  // node.action
+	Line     int     // source line of node.pos (0 if the position is not valid)
+	PosValid bool    // node.pos != token.NoPos
+	Code     uintptr // reflect.ValueOf(node.exec).Pointer(), 0 if node.exec is nil
+	Tnext    int     // place of node.tnext in the dump, -1 if nil, -2 if outside
+	Fnext    int     // likewise for node.fnext
+	Start    int     // likewise for node.start
+	Parent   int     // place of node.anc, -1 if nil or outside
+	Children []int   // places of node.child, in order
+	IsCall   bool    // a call expression
+	Func     string  // name, for a function declaration
+	BrkLine  bool    // node.debug.breakOnLine
+	BrkCall  bool    // node.debug.breakOnCall
+}
+
+func verifC19Places(prog *Program) ([]*node, map[*node]int) {
+	var order []*node
+	place := map[*node]int{}
+	prog.root.Walk(func(n *node) bool {
+		if _, ok := place[n]; ok {
+			return false
+		}
+		place[n] = len(order)
+		order = append(order, n)
+		return true
+	}, nil)
+	return order, place
+}
+
+func verifC19Code(b bltn) uintptr {
+	if b == nil {
+		return 0
+	}
+	return reflect.ValueOf(b).Pointer()
+}
+
+// VerifC19Dump lists the nodes of a compiled program in the order of
+// (*node).Walk from its root.
+func (interp *Interpreter) VerifC19Dump(prog *Program) []VerifC19Node {
+	order, place := verifC19Places(prog)
+	at := func(n *node) int {
+		if n == nil {
+			return -1
+		}
+		if p, ok := place[n]; ok {
+			return p
+		}
+		return -2
+	}
+	out := make([]VerifC19Node, len(order))
+	for i, n := range order {
+		d := VerifC19Node{
+			Index:    n.index,
+			Kind:     n.kind.String(),
+			Action:   n.action.String(),
+			PosValid: n.pos.IsValid(),
+			Code:     verifC19Code(n.exec),
+			Tnext:    at(n.tnext),
+			Fnext:    at(n.fnext),
+			Start:    at(n.start),
+			Parent:   at(n.anc),
+			IsCall:   n.kind == callExpr,
+		}
+		if d.Parent == -2 {
+			d.Parent = -1
+		}
+		if d.PosValid {
+			d.Line = interp.fset.Position(n.pos).Line
+		}
+		for _, c := range n.child {
+			d.Children = append(d.Children, at(c))
+		}
+		if n.kind == funcDecl && len(n.child) > 1 {
+			d.Func = n.child[1].ident
+		}
+		if n.debug != nil {
+			d.BrkLine, d.BrkCall = n.debug.breakOnLine, n.debug.breakOnCall
+		}
+		out[i] = d
+	}
+	return out
+}
+
+// VerifC19TrampolineCode returns the identity of the code of the forwarding
+// closure that setExec installs on a node reached again while its own closure
+// is not generated yet (a back edge of the control-flow graph).
+func VerifC19TrampolineCode() uintptr {
+	var code uintptr
+	a, b := &node{}, &node{}
+	a.tnext, b.tnext = b, a
+	a.gen = func(n *node) { n.exec = func(*frame) bltn { return nil } }
+	b.gen = func(n *node) {
+		code = verifC19Code(n.tnext.exec)
+		n.exec = func(*frame) bltn { return nil }
+	}
+	setExec(a)
+	return code
+}
+
+// VerifC19Trace is one record of an instrumented run: a closure of the node
+// at place Node starts (Enter) or ends.
+type VerifC19Trace struct {
+	Node  int
+	Enter bool
+	Tramp bool // Enter: the closure was reached through a forwarding closure of setExec
+	Nil   bool // end: the closure returned nil
+	Panic bool // end: the closure panicked
+}
+
+// VerifC19Instrument arranges for every closure generated afterwards for a
+// node of the program to report when it starts and ends. The program must not
+// have been executed yet. Closures that exist already (the bodies of function
+// literals are generated while compiling) are discarded and generated again,
+// instrumented, in the order the compiler generated them. Instrumented
+// closures all share one code identity: an instrumented program is meant for
+// plain execution only.
+func (interp *Interpreter) VerifC19Instrument(prog *Program, cb func(VerifC19Trace)) error {
+	order, place := verifC19Places(prog)
+	wrap := func(id int, inner bltn, redirect func(bltn) bltn) bltn {
+		return func(f *frame) (r bltn) {
+			cb(VerifC19Trace{Node: id, Enter: true, Tramp: verifC19ViaTrampoline()})
+			done := false
+			defer func() {
+				if !done {
+					cb(VerifC19Trace{Node: id, Panic: true})
+				}
+			}()
+			r = inner(f)
+			done = true
+			cb(VerifC19Trace{Node: id, Nil: r == nil})
+			if redirect != nil {
+				r = redirect(r)
+			}
+			return r
+		}
+	}
+	for i, n := range order {
+		n.exec = nil
+		g := n.gen
+		if g == nil {
+			continue
+		}
+		id := i
+		n.gen = func(x *node) {
+			type was struct {
+				set  bool
+				code uintptr
+			}
+			before := make([]was, len(x.child))
+			for k, c := range x.child {
+				before[k] = was{c.exec != nil, verifC19Code(c.exec)}
+			}
+			own := was{x.exec != nil, verifC19Code(x.exec)}
+			g(x)
+			inner := x.exec
+			if inner == nil || (own.set && own.code == verifC19Code(inner)) {
+				// nothing generated for this node (a closure installed by another
+				// generator stays)
+				return
+			}
+			x.exec = wrap(id, inner, nil)
+			// a generator may also install a closure on a child (the init step of a range
+			// statement) that hands over to the closure it has just made for its own node
+			seen := map[*node]bool{}
+			for k, c := range x.child {
+				if c == x || seen[c] || c.exec == nil || (before[k].set && before[k].code == verifC19Code(c.exec)) {
+					continue
+				}
+				seen[c] = true
+				cid, ok := place[c]
+				if !ok {
+					continue
+				}
+				outer := x.exec
+				c.exec = wrap(cid, c.exec, func(r bltn) bltn {
+					if r != nil && verifC19Code(r) == verifC19Code(inner) {
+						return outer
+					}
+					return r
+				})
+			}
+		}
+	}
+	// as the post-order case funcLit of cfg does
+	var err error
+	prog.root.Walk(nil, func(n *node) {
+		if n.kind == funcLit && err == nil {
+			err = genRun(n)
+		}
+	})
+	return err
+}
+
+// is the caller of the instrumented closure a forwarding closure of setExec?
+func verifC19ViaTrampoline() bool {
+	var pc [1]uintptr
+	// 0 = Callers, 1 = this function, 2 = the instrumented closure, 3 = its caller
+	if runtime.Callers(3, pc[:]) == 0 {
+		return false
+	}
+	fn := runtime.FuncForPC(pc[0] - 1)
+	return fn != nil && strings.Contains(fn.Name(), ".setExec.")
+}
+
+// VerifC19SetBreakpoints applies SetBreakpoints to a program outside a debug
+// session (the effects on the nodes are the same: flags, and generation of
+// closures by getExec).
+func (interp *Interpreter) VerifC19SetBreakpoints(prog *Program, requests ...BreakpointRequest) []Breakpoint {
+	dbg := &Debugger{interp: interp}
+	return dbg.SetBreakpoints(ProgramBreakpointTarget(prog), requests...)
+}
